@@ -81,7 +81,7 @@ RemoveChildren(p) ==
   /\ On("remove_children") /\ Step(RemoveChildrenF(st, p), O("remove_children", <<p>>, NULL, TRUE))
 ReplaceChild(p, o, n, del) ==
   /\ On("replace_child") /\ (del => On("replace_delete") /\ Desc(K, o) \subseteq st.store)
-  /\ Has(K[p], o) /\ st.name[n] = st.name[o] /\ CanAttach(K, p, n) /\ n # o
+  /\ Has(K[p], o) /\ st.name[n] = st.name[o] /\ (n = o \/ CanAttach(K, p, n))      \* n = o: the node stays attached to exactly one parent
   /\ Step(ReplaceChildF(st, p, o, n, del), O("replace_child", <<p, o, n, del>>, NULL, TRUE))
 ReplaceChildFail(p, o, n) ==  \* name mismatch, or old child not listed: raises; child lists unchanged
   /\ On("replace_child_fail") /\ CanAttach(K, p, n) /\ n # o /\ (st.name[n] # st.name[o] \/ ~Has(K[p], o))
@@ -163,7 +163,7 @@ ShiftRetOK == [][op'.name = "shift" /\ op'.ok => op'.ret = ChildIndex(st'.kids, 
 RegistryStep == [][LET o == op' IN
      /\ o.name \in {"create", "copy", "import"} => st'.store = st.store \cup ((Size(st)+1)..Size(st'))
      /\ o.name = "delete" => st'.store = st.store \ (IF o.args[2] THEN Desc(K, o.args[1]) ELSE {o.args[1]})
-     /\ o.name = "replace_child" /\ o.ok => st'.store = st.store \ (IF o.args[4] THEN Desc(K, o.args[2]) ELSE {})
+     /\ o.name = "replace_child" /\ o.ok => st'.store = st.store \ (IF o.args[4] /\ o.args[2] # o.args[3] THEN Desc(K, o.args[2]) ELSE {})
      /\ o.name \notin {"create", "copy", "import", "delete", "replace_child"} => st'.store = st.store]_vars
 (* C12: right after a copy the two trees are equal, disjoint, and the copy is registered *)
 CopyOK == [][op'.name = "copy" =>
